@@ -239,6 +239,12 @@ fn check(st: &ChainSt, added: &[(String, Vec<u8>)]) -> (Option<(String, String)>
                 if framing > 1 {
                     return None;
                 }
+                // likewise for a Host header of the caller's own on the ORIGINAL request that differs from the URI's
+                // host, after a redirect: C14 wants the Host to name the new URI's host, C02 wants every original
+                // header emitted - neither reading is claimed (DESIGN section 7)
+                if st.hop > 0 && st.cfg.req.orig.iter().any(|(n, _)| n == "host") {
+                    return None;
+                }
                 format!("out-of-scope:{}", k.trim_start_matches("C02:"))
             };
             return Some((if class.starts_with("out-of-scope:") { format!("out-of-scope:C16:{}", class.trim_start_matches("out-of-scope:")) } else { format!("C16:{}", class) }, format!("redirect depth {}: added {:?}: {} ; head: {:?}", st.hop, added.iter().map(|(k, v)| format!("{}: {}", k, show(v))).collect::<Vec<_>>(), w, show(&a.bytes))));
